@@ -2592,6 +2592,9 @@ impl HnswBackend {
 
         let mut meta_index = self.metadata_index.write();
         meta_index.remove_doc(internal_id as u64, &old_metadata);
+        // Release before create_snapshot(): it takes snapshot_lock exclusively, and a concurrent
+        // insert holds snapshot_lock shared while waiting for metadata_index.
+        drop(meta_index);
 
         drop(write_gate_guard);
         drop(snapshot_guard);
